@@ -56,6 +56,14 @@ var heapTargets = []target{
 	{"simple_tree_spreader.go", "defaultSpreaderSimple.spreadBranch"},
 	{"simple_tree_grow_spreader.go", "defaultGrowSpreaderSimple.growAndSpread"},
 	{"simple_tree_grow_spreader.go", "defaultGrowSpreaderSimple.assembleAndPrint"},
+	{"node.go", "Node.setParent"},
+	{"node.go", "Node.addChild"},
+	{"node.go", "Node.findChildByText"},
+	{"node.go", "Node.isDirectlyUnder"},
+	{"stack.go", "stack.push"},
+	{"stack.go", "stack.pop"},
+	{"stack.go", "stack.size"},
+	{"stack.go", "stack.dfs"},
 }
 
 // structs that live in the heap (handled through pointers) and value structs generated here; other value structs
@@ -80,6 +88,8 @@ type hfn struct {
 	writesFS bool // changes the file system (os.MkdirAll, os.Create)
 	usesCB   bool // calls a user callback (whose state is threaded)
 	writesW  bool // writes to the caller's io.Writer
+	usesStk  bool // a method of *stack: reads the stack of open nodes (the world component stk_, root first)
+	writesStk bool // pushes or pops
 	fuel     bool
 	rec      bool
 	calls    map[string]bool
@@ -146,6 +156,8 @@ func (t *htr) leanType(g string) string {
 		return "(List Bytes)"
 	case callbackType:
 		return "(Go.Ptr → σ → σ × (Option Src.Err))"
+	case "*list.Element":
+		return "Go.Ptr"
 	}
 	if strings.HasPrefix(g, "*") {
 		if _, ok := heapStructs[g[1:]]; ok {
@@ -170,6 +182,9 @@ func (t *htr) leanType(g string) string {
 }
 
 func isHeapPtr(g string) bool {
+	if g == "*list.Element" {
+		return true // the element of the stack's list: the node it holds (nil when the list is empty)
+	}
 	if strings.HasPrefix(g, "*") {
 		_, ok := heapStructs[g[1:]]
 		return ok
@@ -354,6 +369,9 @@ func (f *hfn) outs() []string {
 	if f.writesW {
 		o = append(o, "w_")
 	}
+	if f.writesStk {
+		o = append(o, "stk_")
+	}
 	return o
 }
 func (f *hfn) ins() []string {
@@ -366,6 +384,9 @@ func (f *hfn) ins() []string {
 	}
 	if f.writesW {
 		i = append(i, "w_")
+	}
+	if f.usesStk || f.writesStk {
+		i = append(i, "stk_")
 	}
 	return i
 }
@@ -385,7 +406,14 @@ func (t *htr) resolve(sc *hscope, call *ast.CallExpr) *callee {
 		return &callee{cb: idt.Name, outs: []string{"cbs_"}, results: []string{"error"}}
 	}
 	if g, _ := t.calleeOf(sc, call); g != nil {
-		return &callee{fn: g, outs: g.outs(), results: g.results, fuel: g.fuel}
+		var rs []string
+		for _, r := range g.results {
+			if r == "*stack" {
+				r = "~*stack" // `return s`: the receiver, for chaining
+			}
+			rs = append(rs, r)
+		}
+		return &callee{fn: g, outs: g.outs(), results: rs, fuel: g.fuel}
 	}
 	if e, ok := extOf(call); ok {
 		var o []string
@@ -446,8 +474,26 @@ func (t *htr) calleeOf(sc *hscope, call *ast.CallExpr) (*hfn, ast.Expr) {
 	return nil, nil
 }
 
+// listOp: `s.nodes.<Op>(…)` on the receiver `s *stack` (its field `nodes *list.List` is the world component stk_)
+func listOp(f *hfn, call *ast.CallExpr) string {
+	se, ok := call.Fun.(*ast.SelectorExpr)
+	if !ok {
+		return ""
+	}
+	in, ok := se.X.(*ast.SelectorExpr)
+	if !ok || in.Sel.Name != "nodes" {
+		return ""
+	}
+	if idt, ok := in.X.(*ast.Ident); ok && f != nil && idt.Name == f.recvName && f.recvType == "*stack" {
+		return se.Sel.Name
+	}
+	return ""
+}
+
 func (t *htr) typeOf(sc *hscope, e ast.Expr) string {
 	switch x := e.(type) {
+	case *ast.TypeAssertExpr:
+		return typeStr(x.Type)
 	case *ast.ParenExpr:
 		return t.typeOf(sc, x.X)
 	case *ast.BasicLit:
@@ -488,6 +534,12 @@ func (t *htr) typeOf(sc *hscope, e ast.Expr) string {
 	case *ast.CallExpr:
 		if g, _ := t.calleeOf(sc, x); g != nil && len(g.results) == 1 {
 			return g.results[0]
+		}
+		switch listOp(sc.fn, x) {
+		case "Back":
+			return "*list.Element"
+		case "Len":
+			return "int"
 		}
 		if idt, ok := x.Fun.(*ast.Ident); ok {
 			switch idt.Name {
@@ -536,6 +588,17 @@ func (t *htr) analyse() {
 			if p[1] == callbackType {
 				f.usesCB = true
 			}
+		}
+		if f.recvType == "*stack" {
+			f.usesStk = true
+			ast.Inspect(f.decl.Body, func(n ast.Node) bool {
+				if ce, ok := n.(*ast.CallExpr); ok {
+					if op := listOp(f, ce); op == "PushBack" || op == "Remove" {
+						f.writesStk = true
+					}
+				}
+				return true
+			})
 		}
 	}
 	for _, f := range t.fns {
@@ -624,6 +687,9 @@ func (t *htr) analyse() {
 				}
 				if g.writesW && !f.writesW {
 					f.writesW, changed = true, true
+				}
+				if g.writesStk && !f.writesStk {
+					f.writesStk, changed = true, true
 				}
 			}
 		}
@@ -755,6 +821,12 @@ func (t *htr) ex(sc *hscope, e ast.Expr, want string) string {
 			}
 			return t.call(sc, x, c)
 		}
+		switch listOp(sc.fn, x) {
+		case "Back":
+			return "(Go.listBack stk_)"
+		case "Len":
+			return "(Go.len stk_)"
+		}
 		if se, ok := x.Fun.(*ast.SelectorExpr); ok && se.Sel.Name == "Close" && t.typeOf(sc, se.X) == "*os.File" {
 			return "none" // closing the file os.Create has just returned does not fail in the file-system model
 		}
@@ -833,7 +905,7 @@ func (t *htr) call(sc *hscope, x *ast.CallExpr, c *callee) string {
 		parts = append(parts, "fuel_")
 	}
 	parts = append(parts, g.ins()...)
-	if recv != nil {
+	if recv != nil && g.recvType != "*stack" {
 		parts = append(parts, t.ex(sc, recv, g.recvType))
 	}
 	np := len(g.params)
@@ -1011,6 +1083,18 @@ func (t *htr) seq(sc *hscope, stmts []ast.Stmt, c *hcont, ind string) string {
 		return t.seq(sc, append(append([]ast.Stmt{}, x.List...), rest...), c, ind)
 	case *ast.ReturnStmt:
 		var vals []string
+		if len(x.Results) == 1 {
+			// `return s.nodes.Remove(tmp).(*Node)`: the last element leaves the list, its node is the result
+			if ta, ok := x.Results[0].(*ast.TypeAssertExpr); ok {
+				if ce, ok := ta.X.(*ast.CallExpr); ok && listOp(f, ce) == "Remove" && len(ce.Args) == 1 {
+					return ind + "let r0_ := " + t.ex(sc, ce.Args[0], "*list.Element") + "\n" + ind + "let stk_ := Go.listDropBack stk_\n" +
+						ind + c.retRaw(t.fnValue(f, []string{"r0_"})) + "\n"
+				}
+			}
+			if len(f.results) == 1 && f.results[0] == "*stack" {
+				return ind + c.retRaw(t.fnValue(f, nil)) + "\n"
+			}
+		}
 		for i, r := range x.Results {
 			want := "?"
 			if i < len(f.results) {
@@ -1038,6 +1122,20 @@ func (t *htr) seq(sc *hscope, stmts []ast.Stmt, c *hcont, ind string) string {
 		call, ok := x.X.(*ast.CallExpr)
 		if !ok {
 			return ind + t.fail(x.Pos(), "expression statement") + "\n"
+		}
+		if listOp(f, call) == "PushBack" && len(call.Args) == 1 {
+			return ind + "let stk_ := stk_ ++ [" + t.ex(sc, call.Args[0], "*Node") + "]\n" + t.seq(sc, rest, c, ind)
+		}
+		// a chain `s.push(a).push(b)`: the inner call first, then the outer one on the same receiver
+		if se, ok := call.Fun.(*ast.SelectorExpr); ok {
+			if inner, ok := se.X.(*ast.CallExpr); ok {
+				if ise, ok := inner.Fun.(*ast.SelectorExpr); ok {
+					if g, _ := t.calleeOf(sc, inner); g != nil && len(g.results) == 1 && g.results[0] == "*stack" {
+						outer := &ast.CallExpr{Fun: &ast.SelectorExpr{X: ise.X, Sel: se.Sel}, Args: call.Args, Ellipsis: call.Ellipsis}
+						return t.seq(sc, append([]ast.Stmt{&ast.ExprStmt{X: inner}, &ast.ExprStmt{X: outer}}, rest...), c, ind)
+					}
+				}
+			}
 		}
 		g := t.resolve(sc, call)
 		if g == nil {
@@ -1077,6 +1175,27 @@ func (t *htr) seq(sc *hscope, stmts []ast.Stmt, c *hcont, ind string) string {
 		}
 		return pre + ind + "if " + cond + " then (\n" + a + ind + ") else (\n" + b + ind + ")\n"
 	case *ast.RangeStmt:
+		if x.Key == nil && x.Value == nil && t.typeOf(sc, x.X) == "int" {
+			// `for range n`: n rounds
+			state := append(append([]string{}, f.outs()...), t.assigned(sc, x.Body.List)...)
+			lc := &hcont{
+				retRaw: func(val string) string { return "Go.Ctl.ret " + val },
+				none:   func() string { return "Go.Ctl.ret none" },
+				fall:   func(*hscope) string { return "Go.Ctl.next " + tupleOf(state) },
+				next:   func(*hscope) string { return "Go.Ctl.next " + tupleOf(state) },
+				brk:    func(*hscope) string { return "Go.Ctl.brk " + tupleOf(state) },
+			}
+			var b strings.Builder
+			b.WriteString(ind + "match Go.forRange (List.range (Int.toNat " + t.ex(sc, x.X, "int") + ")) " + tupleOf(state) + " (fun _ st_ =>\n")
+			b.WriteString(rebind(state, "st_", ind+"    "))
+			b.WriteString(t.seq(sc.clone(), x.Body.List, lc, ind+"    "))
+			b.WriteString(ind + "  ) with\n")
+			b.WriteString(ind + "| Go.Ctl.ret r_ => " + c.retRaw("r_") + "\n")
+			b.WriteString(ind + "| Go.Ctl.brk st_ | Go.Ctl.next st_ =>\n")
+			b.WriteString(rebind(state, "st_", ind+"  "))
+			b.WriteString(t.seq(sc, rest, c, ind+"  "))
+			return b.String()
+		}
 		v, ok := x.Value.(*ast.Ident)
 		if !ok || x.Value == nil {
 			return ind + t.fail(x.Pos(), "range without a value variable") + "\n"
@@ -1350,7 +1469,7 @@ func (t *htr) function(f *hfn) string {
 	sc := t.scopeOf(f)
 	b.WriteString(fmt.Sprintf("/-- %s: `%s` -/\n", f.file, f.key))
 	var sig strings.Builder
-	if f.recvName != "" {
+	if f.recvName != "" && f.recvType != "*stack" {
 		sig.WriteString(" (" + id(f.recvName) + " : " + t.leanType(f.recvType) + ")")
 	}
 	for _, p := range f.params {
@@ -1368,11 +1487,16 @@ func (t *htr) function(f *hfn) string {
 			rts = append(rts, "FS")
 		case "w_":
 			rts = append(rts, "Go.Writer")
+		case "stk_":
+			rts = append(rts, "(List Go.Ptr)")
 		default:
 			rts = append(rts, "σ")
 		}
 	}
 	for _, r := range f.results {
+		if r == "*stack" {
+			continue // `return s`: the receiver, for chaining
+		}
 		rts = append(rts, t.leanType(r))
 	}
 	rt := "Unit"
@@ -1396,6 +1520,9 @@ func (t *htr) function(f *hfn) string {
 	}
 	if f.writesW {
 		fsig += " (w_ : Go.Writer)"
+	}
+	if f.usesStk || f.writesStk {
+		fsig += " (stk_ : List Go.Ptr)"
 	}
 	if f.rec {
 		// a recursive function: structural recursion on the fuel
